@@ -10,6 +10,10 @@
          r.finishedPluginSync()           syncLock.Unlock()      APRelease p
        a failing synchronisation (handler error, time-out, connection lost during it) is APFail: the
        plugin is not appended, the exclusive section is given up all the same.
+       a plugin that goes away while its registration waits for the exclusive section: the code keeps
+       waiting, takes the section, fails the synchronisation at once and gives the section up (APAcquire;
+       APFail).  APAbandon is the other correct behaviour (drop the waiter without ever taking the section):
+       it changes nothing but the waiter's own program counter.
      a registered plugin instance whose connection is lost (plugin.close: p.closed = true):
          it stays on r.plugins until the next removeClosedPlugins   APClose p   (moved from [active] to [zombies])
          removeClosedPlugins (deferred by every request; first thing of sortPlugins at an activation)
@@ -90,6 +94,7 @@ Inductive action :=
 | APActivate (p : pid)
 | APRelease (p : pid)
 | APClose (p : pid)              (* the connection of a registered instance is lost *)
+| APAbandon (p : pid)            (* a registration still waiting for the exclusive section is given up (its plugin went away) *)
 | AGAcquire (g : gid)
 | AGBegin (g : gid) (c : cid)
 | AGDeliver (g : gid) (p : pid)
@@ -156,6 +161,11 @@ Definition step (s : state) (a : action) : option state :=
   | APRelease p =>
       match alookup p (plugs s) with
       | Some (PActivated ids) => Some (set_writer (set_plug s p (PDone ids)) false)
+      | _ => None
+      end
+  | APAbandon p =>                                   (* the waiter leaves the queue: nothing but its own program counter changes *)
+      match alookup p (plugs s) with
+      | Some PWaitW => Some (set_plug s p PFailed)
       | _ => None
       end
   | APClose p =>                                     (* noticed between two requests *)
